@@ -92,6 +92,13 @@ CLAIMED = {
         note="Trusted base: the reference unroller (documented range semantics: exclusive end, default step 1) and world model.",
         ref="DESIGN.md §8 C16",
     ),
+    "C07": dict(
+        engine="factosim-cli",
+        text="Seeded exploration of the I/O path with real processes: for each seeded program a sampled part of the invocation matrix {dsl_compiler.cli, python -m dsl_compiler, compile.py} x {file, -i} x {string, --json} x {stdout, -o, -o into a not-yet-existing directory} x {--no-optimize} x {--power-poles T} x {--name} is run as subprocesses made repeatable by a sitecustomize solver shim; each output must exit 0, decode (base64+zlib+JSON / JSON), agree between the string and --json forms, contain every placement of the in-process layout plan of the same source (captured by an observer around BlueprintEmitter.emit_from_plan) at its position with its complete configuration (operands, operation, conditions, outputs, network selections, constant sections, circuit conditions) and every planned wire, and equal the blueprint the API returns, whose behaviour the other properties execute.",
+        note="Trusted base: the plan-to-JSON expectation table in factosim/props/c07.py; determinism of the shimmed solver (asserted: subprocess text == in-process blueprint).",
+        ref="DESIGN.md §8 C07",
+        technique="deterministic simulation with fault injection: real CLI subprocesses under a deterministic solver shim over a seeded invocation matrix; decoded text checked against the captured layout plan and the API blueprint",
+    ),
 }
 
 NOT_YET = {}
@@ -138,7 +145,9 @@ def main():
             "add_only": True,
         },
         "engines": [
-            {"name": "factosim-exec", "path": "/verif/factosim", "serves_properties": sorted(CLAIMED),
+            {"name": "factosim-cli", "path": "/verif/factosim/props/c07.py", "serves_properties": ["C07"],
+             "kind_free_text": "real CLI subprocesses under a sitecustomize solver shim, scratch file system, decoded output vs captured layout plan"},
+            {"name": "factosim-exec", "path": "/verif/factosim", "serves_properties": sorted(k for k in CLAIMED if k != "C07"),
              "kind_free_text": "deterministic simulation: real compiler under owned solver/routing/hash-seed seams, fork-per-run workers, Factorio circuit-network world model, reference interpreter, choice-tape + structural shrinker, replay files"},
         ],
         "checks": checks,
